@@ -1,4 +1,4 @@
-import DFV.Lemmas.C06Ok
+import DFV.Lemmas.C06Chain
 /-!
 # C06 — integrals and means are cell sums times cell measure, consistent across axes
 
@@ -53,21 +53,8 @@ theorem integrate_dir (f : Fld) (hf : WF f) (d : String) (g : Fld)
       g.nvdim = f.nvdim ∧ g.vdims = f.vdims ∧ g.vmap = f.vmap ∧ g.unit = none ∧
       (∀ i, g.valid.get i = true) ∧
       ∀ i c, inRange (removeAt f.mesh.n ax) i = true → c < f.nvdim →
-        cget g.data i c = f.mesh.cellAt ax * sumTo (f.mesh.nAt ax) fun j => cget f.data (insertAt i ax j) c := by
-  obtain ⟨ax, m', hax, _, hsel, hshape, hg⟩ := integrate_dir_unpack f d g h
-  obtain ⟨ax', hax', haxlt, _, hpmin, hpmax, hdims, hunits, _, hn, _, _⟩ := sel_spec f.mesh hf.1 d m' hsel
-  rw [hax] at hax'; injection hax' with hax'; subst hax'
-  subst hg
-  refine ⟨ax, hax, haxlt, hpmin, hpmax, hdims, hunits, hn, ?_, rfl, rfl, rfl, rfl, fun _ => rfl, ?_⟩
-  · show removeAt f.data.shape ax = _
-    rw [hf.2]
-  · intro i c hi hc
-    have hi' : inRange (scaleBy f.nvdim (f.mesh.cellAt ax) (sumAxis f.nvdim f.data ax)).shape i = true := by
-      show inRange (removeAt f.data.shape ax) i = true
-      rw [hf.2]; exact hi
-    simp only
-    rw [cget_force _ _ _ hi', cget_scaleBy _ _ _ _ _ hc, cget_sumAxis _ _ _ _ _ hc, mul_comm, hf.2]
-    rfl
+        cget g.data i c = f.mesh.cellAt ax * sumTo (f.mesh.nAt ax) fun j => cget f.data (insertAt i ax j) c :=
+  integrate_dir_spec f hf d g h
 
 /-- on a 1-d mesh `integrate(d)` returns the bare array: cell length × sum of the cells -/
 theorem integrate_dir_1d (f : Fld) (hf : WF f) (d : String) (v : List Rat)
@@ -275,6 +262,69 @@ theorem mean_dir_eq (f : Fld) (hf : WF f) (d : String) (gi : Fld) (r : Res)
   have hcp := cell_pos' f.mesh hf.1 ax haxlt
   show _ / ((f.mesh.nAt ax : Nat) : Rat) = _
   field_simp
+
+/-- `sorted(a) == sorted(b)` holds exactly for permutations -/
+theorem sameMultiset_iff_perm (a b : List String) : sameMultiset a b = true ↔ a.Perm b := by
+  unfold sameMultiset
+  rw [List.perm_iff_count]
+  simp only [Bool.and_eq_true, List.all_eq_true, beq_iff_eq]
+  constructor
+  · intro ⟨h1, h2⟩ x
+    by_cases hxa : x ∈ a
+    · exact h1 x hxa
+    · by_cases hxb : x ∈ b
+      · exact h2 x hxb
+      · rw [List.count_eq_zero_of_not_mem hxa, List.count_eq_zero_of_not_mem hxb]
+  · intro h
+    exact ⟨fun x _ => h x, fun x _ => h x⟩
+
+/-- Listing all directions, in any order, is the mean over everything: the integral over all
+directions divided by the volume of the region. -/
+theorem mean_all_named (f : Fld) (hf : WF f) (ds : List String) (hp : ds.Perm f.mesh.region.dims) :
+    mean f (.names ds) = mean f .none := by
+  have hnd : ds.Nodup := hp.nodup_iff.mpr (nodup_of_hasDup _ hf.1.1.2.2.2.2.1)
+  have hdup : hasDup ds = false := hasDup_of_nodup ds hnd
+  unfold mean
+  simp only [hdup, Bool.false_eq_true, if_false, (sameMultiset_iff_perm _ _).mpr hp, if_true]
+
+/-- `mean(list of directions)` (a proper subset, in any order) is the result of integrating
+over those directions one after the other — in that order — divided by the product of their
+edge lengths; both live on the same reduced mesh. -/
+theorem mean_dirs_eq (f : Fld) (hf : WF f) (ds : List String) (gm gi : Fld)
+    (hm : mean f (.names ds) = .ok (.field gm)) (hi : integrateSeq f ds = .ok (.field gi)) :
+    gm.mesh = gi.mesh ∧ gm.data.shape = gi.data.shape ∧ gm.nvdim = f.nvdim ∧ gm.unit = f.unit ∧
+    ∀ i c, inRange gi.data.shape i = true → c < f.nvdim →
+      cget gm.data i c = cget gi.data i c / extent f.mesh.region ds := by
+  obtain ⟨_, m', axes, hselm, hax, hshape, hgm⟩ := mean_names_unpack f ds gm hm
+  obtain ⟨axes', C', hax', hselm', hinv, hprod⟩ := chain f hf ds f _ 1 gi (chainInv_init f hf) hi
+  rw [hax] at hax'; injection hax' with hax'; subst hax'
+  rw [hselm] at hselm'; injection hselm' with hselm'
+  rw [← keepMask_eq_foldl, dropProd_allTrue] at hprod
+  rw [← keepMask_eq_foldl] at hinv
+  obtain ⟨hwgi, _, _, hCpos, _, _, _, hn, hval⟩ := hinv
+  have hgish : gi.data.shape = gi.mesh.n := hwgi.2
+  subst hgm
+  refine ⟨hselm', ?_, rfl, rfl, ?_⟩
+  · show (meanAxes f.nvdim f.data axes).shape = _
+    rw [hshape, hselm', hgish]
+  · intro i c hin hc
+    have hin' : inRange (meanAxes f.nvdim f.data axes).shape i = true := by
+      rw [hshape, hselm', ← hgish]; exact hin
+    simp only
+    rw [cget_force _ _ _ hin', cget_meanAxes _ _ _ _ _ hc, hval i c (by rw [← hgish]; exact hin) hc, hf.2]
+    have hD : (0 : Rat) < (dropProd (keepMask f.mesh.n.length axes) f.mesh.n : Rat) := by
+      have : 0 < dropProd (keepMask f.mesh.n.length axes) f.mesh.n := by
+        apply dropProd_pos
+        intro k hk
+        obtain ⟨a, ha, rfl⟩ := List.getElem_of_mem hk
+        have := hf.1.2.2 a (by show a < f.mesh.region.ndim; rw [← hf.1.2.1]; exact ha)
+        unfold Mesh.nAt at this
+        simpa [List.getD_eq_getElem?_getD, ha] using this
+      exact_mod_cast this
+    have hprod' : extent f.mesh.region ds = C' * (dropProd (keepMask f.mesh.n.length axes) f.mesh.n : Rat) := by
+      rw [hprod]; ring
+    rw [hprod']
+    field_simp
 
 /-! ## Every form at once; linear, per component, independent of the mesh position -/
 
